@@ -179,8 +179,8 @@ func (h *E2E) EchoP(a *PbMsg, r *PbMsg) error {
 type e2eStream struct{ st rpc.Stream }
 
 func (s *e2eStream) Connect(st rpc.Stream) error { s.st = st; return nil }
-func (s *e2eStream) Write(m *Msg) error           { return s.st.WriteMessage(m) }
-func (s *e2eStream) Read(b []byte, m *Msg) error   { return s.st.ReadMessage(b, m) }
+func (s *e2eStream) Write(m *Msg) error          { return s.st.WriteMessage(m) }
+func (s *e2eStream) Read(b []byte, m *Msg) error { return s.st.ReadMessage(b, m) }
 
 // Watch: the first message tells how many messages to push first; then every message is echoed (transformed).
 func (h *E2E) watch(st *e2eStream, pushFirst int) error {
@@ -214,7 +214,9 @@ func (h *E2E) watch(st *e2eStream, pushFirst int) error {
 func (h *E2E) Watch(st *e2eStream) error     { return h.watch(st, 0) }
 func (h *E2E) PushFirst(st *e2eStream) error { return h.watch(st, 5) }
 
-func pushMsg(i int) []byte { return []byte(fmt.Sprintf("server-push-%d-%s", i, strings.Repeat("x", i*7))) }
+func pushMsg(i int) []byte {
+	return []byte(fmt.Sprintf("server-push-%d-%s", i, strings.Repeat("x", i*7)))
+}
 
 // ---- configuration ----
 
